@@ -300,6 +300,9 @@ func tryReplay(eng *Engine, r *OblReport, rec map[string]interface{}) string {
 		}
 		ge, ok := goValue(eng, fv.Ctx.sorts, fv.ParamT[i], mv, "")
 		if !ok {
+			ge, ok = goElems(fv, i, r.res.Model)
+		}
+		if !ok {
 			rec["replay_note"] = fmt.Sprintf("input %s of type %s cannot be reconstructed from the model (%s)", p[0], fv.ParamT[i], truncate(mv, 80))
 			return "none"
 		}
@@ -308,7 +311,8 @@ func tryReplay(eng *Engine, r *OblReport, rec map[string]interface{}) string {
 	// predicted results
 	var predicted []string
 	sig := fn.Signature
-	for i := 0; i < sig.Results().Len(); i++ {
+	panicKind := r.Kind == "rte" || r.Kind == "nopanic"
+	for i := 0; i < sig.Results().Len() && !panicKind; i++ {
 		if i >= len(fv.Results) {
 			rec["replay_note"] = "no predicted result term"
 			return "none"
@@ -325,7 +329,7 @@ func tryReplay(eng *Engine, r *OblReport, rec map[string]interface{}) string {
 		}
 		predicted = append(predicted, cv)
 	}
-	if len(predicted) == 0 {
+	if len(predicted) == 0 && r.Kind != "rte" && r.Kind != "nopanic" {
 		rec["replay_note"] = "function has no results to compare"
 		return "none"
 	}
@@ -397,6 +401,10 @@ func TestVerifReplay(t *testing.T) {
 		if r.Kind == "rte" || r.Kind == "nopanic" {
 			return "confirmed"
 		}
+		return "engine-mismatch"
+	}
+	if panicKind {
+		rec["replay_note"] = "the engine predicts a failing run-time check for these inputs but the real function returned normally"
 		return "engine-mismatch"
 	}
 	for i, p := range predicted {
@@ -490,4 +498,62 @@ func runReplayCmd(repo, verif, path string) int {
 		return 2
 	}
 	return 1
+}
+
+// goElems rebuilds a string or a slice of basic integers from the model values of
+// its length and first elements (longer inputs are not replayed).
+func goElems(fv *FuncVC, i int, model map[string]string) (string, bool) {
+	terms := fv.ElemTerms[i]
+	if len(terms) == 0 {
+		return "", false
+	}
+	get := func(t string) (string, bool) {
+		v, ok := model[strings.Join(strings.Fields(t), " ")]
+		return v, ok
+	}
+	lv, ok := get(terms[0])
+	if !ok {
+		return "", false
+	}
+	ln, ok := modelInt(lv, 64, true)
+	if !ok || ln.Sign() < 0 || ln.Int64() > replayElems {
+		return "", false
+	}
+	n := int(ln.Int64())
+	t := fv.ParamT[i]
+	if isStringType(t) {
+		var bs []string
+		for k := 0; k < n; k++ {
+			ev, ok := get(terms[1+k])
+			if !ok {
+				return "", false
+			}
+			b, ok := modelInt(ev, 8, false)
+			if !ok {
+				return "", false
+			}
+			bs = append(bs, fmt.Sprintf("%d", b.Uint64()&0xff))
+		}
+		return "string([]byte{" + strings.Join(bs, ", ") + "})", true
+	}
+	sl := t.Underlying().(*types.Slice)
+	bits, signed, _ := isIntType(sl.Elem())
+	tn := types.TypeString(sl.Elem(), func(p *types.Package) string { return "" })
+	var es []string
+	for k := 0; k < n; k++ {
+		ev, ok := get(terms[1+k])
+		if !ok {
+			return "", false
+		}
+		bi, ok := modelInt(ev, bits, signed)
+		if !ok {
+			return "", false
+		}
+		if signed {
+			es = append(es, fmt.Sprintf("%s(vi(%s))", tn, bi.String()))
+		} else {
+			es = append(es, fmt.Sprintf("%s(vu(%s))", tn, bi.String()))
+		}
+	}
+	return "[]" + tn + "{" + strings.Join(es, ", ") + "}", true
 }
